@@ -131,6 +131,27 @@ theorem c16_budget_independent (spent : String → Bool) (ev : String → Outcom
     rw [h]
   rw [this]
 
+/-- **one message per permitted hit, whatever happens to the other results** — with several tracepoints on the
+    event, a result (a log message, a snapshot) is delivered iff processing IT does not fail: a refused push or a
+    logger failure for another tracepoint never suppresses a later message. -/
+theorem c16_results_isolated (tps : List TpKind) (fails : Nat × ResKind → Bool) :
+    delivered tps fails = (resultsOf 0 tps).filter (fun r => !fails r) := by
+  unfold delivered
+  generalize resultsOf 0 tps = rs
+  have hg : resultLoopGuard.isSome = true := by decide
+  generalize resultLoopGuard = g at hg
+  induction rs with
+  | nil => rfl
+  | cons r rs ih =>
+    simp only [resultLoop, hg, if_true, List.filter_cons]
+    cases fails r <;> simp [ih]
+
+theorem c16_message_delivered (tps : List TpKind) (fails : Nat × ResKind → Bool) (i : Nat)
+    (hm : (i, ResKind.logMsg) ∈ resultsOf 0 tps) (hf : fails (i, .logMsg) = false) :
+    (i, ResKind.logMsg) ∈ delivered tps fails := by
+  rw [c16_results_isolated]
+  exact List.mem_filter.mpr ⟨hm, by simp [hf]⟩
+
 /-- **labels** — the tracepoint logger's parameters receive: the message in `log_msg`, the tracepoint id in
     `tp_id`, the context id in `ctx_id` (argument order of the call = parameter order of the signature). -/
 theorem c16_labels (msg tp ctx : String) :
